@@ -48,6 +48,7 @@ func Monitor(evs []Ev, complete bool) [][2]string {
 		id    string
 		due   int64
 		fired bool
+		busy  bool // a timer was pending under the id when the request was handed over: a refusal may have been decided then
 	}
 	window := map[int]*win{}
 	shutdown := false
@@ -55,12 +56,14 @@ func Monitor(evs []Ev, complete bool) [][2]string {
 	for _, e := range evs {
 		switch e.Kind {
 		case "add-begin":
-			window[e.Token] = &win{id: e.Id, due: e.Due}
+			_, busy := pending[e.Id]
+			window[e.Token] = &win{id: e.Id, due: e.Due, busy: busy}
 		case "add":
-			firedInWindow := false
+			firedInWindow, busyAtBegin := false, false
 			if w := window[e.Token]; w != nil {
 				delete(window, e.Token)
 				firedInWindow = w.fired // installed and already fired before the result could be observed
+				busyAtBegin = w.busy
 			}
 			old, have := pending[e.Id]
 			if have && old == e.Token {
@@ -86,7 +89,7 @@ func Monitor(evs []Ev, complete bool) [][2]string {
 				}
 				toks[e.Token] = &tokInfo{id: e.Id, due: e.Due, accepted: true}
 				pending[e.Id] = e.Token
-			} else if !have && !shutdown {
+			} else if !have && !shutdown && !busyAtBegin {
 				bad("id-not-reusable-after-firing", fmt.Sprintf("make(%s) was refused (%s) although no timer is pending under that id (its timer has fired or was cancelled)", e.Id, e.Err))
 			}
 		case "cancel":
